@@ -110,3 +110,81 @@ func vxH_C16_close() {
 	b.Set([]byte{'z'}, []byte{'z'})
 	vxAssert("executebatch-after-close", c.ExecuteBatch(b, WriteOptions{}) == ErrClosed)
 }
+
+func init() { vxRegister("vxH_C16_dirtyLimit", vxH_C16_dirtyLimit) }
+
+// vxH_C16_dirtyLimit: MaxDirtyOps makes the merger wait for the persister
+// after handing a stack down. The lower level succeeds, fails its first
+// update, or is stalled inside its first update until Close has begun and
+// then fails or succeeds. One or two writers; Close arrives at a symbolic
+// point. Explored over schedules: Close returns, writers return nil or
+// ErrClosed, and afterwards every entry point reports ErrClosed.
+func vxH_C16_dirtyLimit() {
+	co := CollectionOptions{MaxDirtyOps: 1}
+	ll := vxNewLL(nil)
+	mode := vxChoose(4) // 0 succeeds, 1 first update fails, 2 stalled then fails, 3 stalled then succeeds
+	closing := make(chan struct{})
+	switch mode {
+	case 1:
+		ll.fail = []bool{true}
+	case 2:
+		ll.fail = []bool{true}
+		ll.stallAt = 0
+	case 3:
+		ll.stallAt = 0
+	}
+	co.LowerLevelInit = ll.snapshot()
+	co.LowerLevelUpdate = ll.update
+	co.OnEvent = func(ev Event) {
+		if ev.Kind == EventKindCloseStart {
+			close(closing)
+		}
+	}
+	ci, err := NewCollection(co)
+	vxAssert("new-ok", err == nil)
+	c := ci.(*collection)
+	ll.opts = c.options
+	ll.ss.options = c.options
+	c.Start()
+	var wg sync.WaitGroup
+	nw := 1 + vxChoose(2)
+	errs := make([]error, nw)
+	for w := 0; w < nw; w++ {
+		wg.Add(1)
+		w := w
+		go func() {
+			defer wg.Done()
+			b, berr := c.NewBatch(1, 8)
+			if berr != nil {
+				errs[w] = berr
+				return
+			}
+			b.Set([]byte{'w', byte('0' + w)}, []byte{'v'})
+			errs[w] = c.ExecuteBatch(b, WriteOptions{})
+		}()
+	}
+	if mode >= 2 {
+		wg.Add(1)
+		go func() {
+			defer wg.Done()
+			<-closing
+			vxYield()
+			close(ll.release)
+		}()
+	}
+	if vxChoose(2) == 1 {
+		vxQuiesce() // merger and persister get as far as they can first
+	}
+	cerr := c.Close()
+	vxAssert("close-ok", cerr == nil)
+	wg.Wait()
+	for w := 0; w < nw; w++ {
+		vxAssert("writer-returned-nil-or-closed", errs[w] == nil || errs[w] == ErrClosed)
+	}
+	_, nberr := c.NewBatch(1, 8)
+	vxAssert("newbatch-after-close", nberr == ErrClosed)
+	_, serr := c.Snapshot()
+	vxAssert("snapshot-after-close", serr == ErrClosed)
+	_, gerr := c.Get([]byte{'x'}, ReadOptions{})
+	vxAssert("get-after-close", gerr == ErrClosed)
+}
